@@ -103,6 +103,20 @@ Theorem C08_lzmax86_roundtrip : forall (c_enc c_dec : bytes -> outcome bytes) x,
 Proof. exact lzmax86_roundtrip_l. Qed.
 Print Assumptions C08_lzmax86_roundtrip.
 
+(* ---- histories of calls ---- *)
+
+(* In the model every Encode/Decode is a function of its argument: in any history of
+   calls whose results are all retained, result i is that function of argument i,
+   whatever was encoded before or after it.  (True by construction of the pure model;
+   the executor checks the same of the Go code, where it is not automatic: p_seq and
+   the *seq correspondence ops.) *)
+Theorem C08_history_independent : forall (f : bytes -> outcome bytes) xs ys i x,
+  nth_error xs i = Some x -> nth_error ys i = Some x ->
+  length (call_history f xs) = length xs /\
+  nth_error (call_history f xs) i = nth_error (call_history f ys) i.
+Proof. exact (@call_history_independent bytes (outcome bytes)). Qed.
+Print Assumptions C08_history_independent.
+
 (* ---- non-vacuity ---- *)
 
 (* a buffer that drives every branch of the filter: converted calls, a jump whose
@@ -138,4 +152,9 @@ Example ex_lzma_header :
   let raw := [93; 0; 0; 0; 1; 255; 255; 255; 255; 255; 255; 255; 255; 0; 1; 2] in
   lzma_encode (fun _ _ => Ok raw) ex_code =
     Ok [93; 0; 0; 0; 1; 41; 0; 0; 0; 0; 0; 0; 0; 0; 1; 2].
+Proof. vm_compute. reflexivity. Qed.
+
+Example ex_history :
+  call_history (lzmax86_encode (fun x => Ok x)) [ex_code; []; ex_code] =
+  [lzmax86_encode (fun x => Ok x) ex_code; Ok []; lzmax86_encode (fun x => Ok x) ex_code].
 Proof. vm_compute. reflexivity. Qed.
